@@ -14,7 +14,7 @@ Variable children : list (option child_ops).
 (* internal transition, guard holds: only guard and action run; the runtime state is untouched *)
 Lemma back_internal_row fuel r rid src ev rn g :
   g_plan g = [] -> memb rid (g_val g) = true ->
-  exec_row cf mc children fuel r (Row rid src (TrEv (e_ty ev)) TgNone true ActCall None) ev rn g =
+  exec_row cf contained mc children fuel r (Row rid src (TrEv (e_ty ev)) TgNone true ActCall None) ev rn g =
     (Some HANDLED_TRUE, rn, bump g [Cb KAction [] rid ev false (act rn); Cb (KGuard true) [] rid ev false (act rn)]).
 Proof.
   intros Hplan Hval. destruct g as [tr cbn0 plan val up bad]. cbn in Hplan, Hval. subst plan.
@@ -35,7 +35,7 @@ Qed.
    whatever the kind of row (external, internal, into a submachine, explicit entry ...) *)
 Lemma back_rejected_row fuel r x ev rn g :
   g_plan g = [] -> r_guard x = true -> memb (r_id x) (g_val g) = false -> r_exitpt x = None ->
-  exec_row cf mc children fuel r x ev rn g =
+  exec_row cf contained mc children fuel r x ev rn g =
     (Some HANDLED_GUARD_REJECT, rn, bump g [Cb (KGuard false) [] (r_id x) ev false (act rn)]).
 Proof.
   intros Hplan Hg Hval Hex. destruct g as [tr cbn0 plan val up bad]. cbn in Hplan, Hval. subst plan.
